@@ -1,17 +1,19 @@
 package main
 
 import (
+	"context"
 	"encoding/json"
 	"fmt"
 	"os"
+	"os/exec"
 	"path/filepath"
 	"regexp"
 	"sort"
+	"strconv"
 	"strings"
 	"sync"
+	"time"
 )
-
-func runC08(c *ctx, cfgNames []string) []procOut { return nil }
 
 // runC18 runs the -race builds with the detector's reports sent to log files, then turns every distinct
 // report into a violation (deduplicated by the pair of outermost library entry points).
@@ -106,4 +108,179 @@ func raceKey(block string) string {
 		return "unattributed"
 	}
 	return strings.Join(outer, " <-> ")
+}
+
+// ---------------------------------------------------------------- C08: fork-differential lackey traces
+
+type ldCmp struct {
+	Pid       string `json:"pid"`
+	Identical bool   `json:"identical"`
+	Lines     int64  `json:"lines"`
+	DiffAt    int64  `json:"diff_at"`
+	Kind      string `json:"kind"`
+	A         string `json:"a"`
+	B         string `json:"b"`
+	LastInstr string `json:"last_instr"`
+}
+
+type ldOut struct {
+	Calibration ldCmp   `json:"calibration"`
+	Comparisons []ldCmp `json:"comparisons"`
+	Error       string  `json:"error"`
+}
+
+type c08Job struct {
+	cfg string
+	op  string
+}
+
+func runC08(c *ctx, cfgNames []string) []procOut {
+	nsecrets := 7
+	if c.tier == "thorough" {
+		nsecrets = 14
+	}
+	if v := os.Getenv("VERIF_C08_SECRETS"); v != "" {
+		nsecrets, _ = strconv.Atoi(v)
+	}
+	type cfgInfo struct {
+		bin, nm, marker string
+		ops             []string
+	}
+	infos := map[string]*cfgInfo{}
+	results := map[string]*result{}
+	var jobs []c08Job
+	for _, cn := range cfgNames {
+		bin := c.binPath(configs[cn].Build)
+		info := &cfgInfo{bin: bin, nm: filepath.Join(c.scratch, "out", "nm."+configs[cn].Build)}
+		if _, err := os.Stat(info.nm); err != nil {
+			out, _ := run("", goEnv(), "go", "tool", "nm", "-n", bin)
+			os.WriteFile(info.nm, []byte(out), 0o644)
+		}
+		nmb, _ := os.ReadFile(info.nm)
+		for _, l := range strings.Split(string(nmb), "\n") {
+			if strings.HasSuffix(l, " main.marker") {
+				a, _ := strconv.ParseUint(strings.Fields(l)[0], 16, 64)
+				info.marker = fmt.Sprintf("%08x,", a)
+			}
+		}
+		lst, _ := run("", nil, bin, "-list")
+		for _, op := range strings.Split(strings.TrimSpace(lst), "\n") {
+			if op == "" {
+				continue
+			}
+			if strings.Contains(op, "n=190") && c.tier != "thorough" && os.Getenv("VERIF_C08_BIG") == "" {
+				continue
+			}
+			info.ops = append(info.ops, op)
+			jobs = append(jobs, c08Job{cn, op})
+		}
+		infos[cn] = info
+		results[cn] = &result{Property: "C08", Config: cn, Complete: true, Histo: map[string]int64{}, Max: map[string]int64{}, Observed: map[string]any{},
+			Rule: "operations x secrets: each operation is traced (valgrind lackey: every instruction address and every load/store address) in forked children that start from one address-space image and differ only in the secret {two copies of one PRNG value (calibration), another PRNG value, 0^64, ff^64, 0x88.., equal halves, non-canonical field encoding (+ 0x77.., one-hot low/high, L-1|L+1, two more PRNG values in the thorough tier)}; the trace segment between the markers must be byte-identical; non-trivial = (operation, secret) comparison against the first child; distinct = operation x secret"}
+		if info.marker == "" {
+			results[cn].Inconclusive = append(results[cn].Inconclusive, "marker symbol not found")
+		}
+	}
+	if only := os.Getenv("VERIF_C08_OPS"); only != "" {
+		var f []c08Job
+		for _, j := range jobs {
+			if strings.Contains(j.op, only) {
+				f = append(f, j)
+			}
+		}
+		jobs = f
+	}
+	var mu sync.Mutex
+	sem := make(chan struct{}, 8)
+	var wg sync.WaitGroup
+	for ji, j := range jobs {
+		wg.Add(1)
+		sem <- struct{}{}
+		go func(ji int, j c08Job) {
+			defer wg.Done()
+			defer func() { <-sem }()
+			info := infos[j.cfg]
+			res := results[j.cfg]
+			dir := filepath.Join(c.scratch, "out", fmt.Sprintf("tr-%s-%d", j.cfg, ji))
+			os.MkdirAll(dir, 0o755)
+			defer os.RemoveAll(dir)
+			cctx, cancel := context.WithTimeout(context.Background(), 15*time.Minute)
+			defer cancel()
+			cmd := exec.CommandContext(cctx, "valgrind", "--tool=lackey", "--trace-mem=yes", "--log-file="+filepath.Join(dir, "t.%p"), info.bin, j.op, strconv.Itoa(nsecrets))
+			cmd.Env = append(goEnv(), configs[j.cfg].Env...)
+			outb, err := cmd.CombinedOutput()
+			var pids []string
+			for _, l := range strings.Split(string(outb), "\n") {
+				if strings.HasPrefix(l, "pids ") {
+					pids = strings.Fields(l)[1:]
+				}
+			}
+			mu.Lock()
+			defer mu.Unlock()
+			if err != nil || len(pids) < 3 {
+				res.Inconclusive = append(res.Inconclusive, fmt.Sprintf("%s: traced run failed (%v): %s", j.op, err, tail(string(outb), 300)))
+				return
+			}
+			mu.Unlock()
+			args := append([]string{"-dir", dir, "-marker", info.marker, "-nm", info.nm}, pids...)
+			ldo, _ := run("", nil, filepath.Join(verifDir, "bin", "lackeydiff"), args...)
+			mu.Lock()
+			var ld ldOut
+			if json.Unmarshal([]byte(strings.TrimSpace(ldo)), &ld) != nil || ld.Error != "" {
+				res.Inconclusive = append(res.Inconclusive, fmt.Sprintf("%s: trace comparison failed: %s", j.op, tail(ldo, 200)))
+				return
+			}
+			isControl := strings.HasPrefix(j.op, "control.")
+			if !ld.Calibration.Identical {
+				// two children with the same secret differ: the environment is noisy for this operation
+				res.Inconclusive = append(res.Inconclusive, fmt.Sprintf("%s: calibration pair (same secret) differs at record %d (%s): not comparable", j.op, ld.Calibration.DiffAt, ld.Calibration.Kind))
+				return
+			}
+			res.Histo["operations-traced"]++
+			if ld.Calibration.Lines > res.Max["trace-records-per-child"] {
+				res.Max["trace-records-per-child"] = ld.Calibration.Lines
+			}
+			res.Histo["trace-records-compared"] += ld.Calibration.Lines * int64(1+len(ld.Comparisons))
+			flagged := false
+			for i, cm := range ld.Comparisons {
+				res.Evaluations++
+				res.Distinct++
+				if cm.Identical {
+					continue
+				}
+				flagged = true
+				if isControl {
+					continue
+				}
+				raw, _ := json.Marshal(map[string]any{"operation": j.op, "config": j.cfg, "secret_index": i + 2, "kind": cm.Kind, "record": cm.DiffAt, "child0": cm.A, "childN": cm.B, "after_instruction": cm.LastInstr})
+				res.Violations = append(res.Violations, violation{Sig: "not-constant-time/" + j.op + "/" + cm.Kind, What: fmt.Sprintf("%s: trace of secret #%d diverges from secret #0 at record %d (%s) after %s: %q vs %q", j.op, i+2, cm.DiffAt, cm.Kind, cm.LastInstr, cm.A, cm.B), Config: j.cfg, Case: raw})
+				res.NViolations++
+				break
+			}
+			if isControl {
+				if flagged {
+					res.Histo["controls-fired"]++
+				} else {
+					res.Inconclusive = append(res.Inconclusive, j.op+": the positive control was NOT flagged; the monitor is blind")
+				}
+			} else if !flagged {
+				res.Histo["operations-identical"]++
+			}
+			if len(res.Samples) < 4 {
+				res.Samples = append(res.Samples, map[string]any{"category": "traced-operation", "case": map[string]any{"operation": j.op, "config": j.cfg, "children": len(pids), "records_per_child": ld.Calibration.Lines, "all_identical": !flagged}})
+			}
+		}(ji, j)
+	}
+	wg.Wait()
+	var outs []procOut
+	for _, cn := range cfgNames {
+		r := results[cn]
+		r.Observed["secrets_per_operation"] = nsecrets
+		r.Observed["operations"] = infos[cn].ops
+		if r.Histo["controls-fired"] < 2 && os.Getenv("VERIF_C08_OPS") == "" {
+			r.Inconclusive = append(r.Inconclusive, fmt.Sprintf("only %d of 2 positive controls fired", r.Histo["controls-fired"]))
+		}
+		outs = append(outs, procOut{cfg: cn, res: r})
+	}
+	return outs
 }
